@@ -28,11 +28,15 @@ SERIAL_STYLES = ["zero", "random", "wrap", "negative", "random"]
 _calls = [0]
 
 
-def noise_columns(rnd, lines):
+_his_done = [False]
+
+
+def noise_columns(rnd, lines, style=None):
     out = []
     # serial numbers: random (mostly unique), all equal, wrapping around every few atoms, or negative
-    style = SERIAL_STYLES[_calls[0] % len(SERIAL_STYLES)]
-    _calls[0] += 1
+    if style is None:
+        style = SERIAL_STYLES[_calls[0] % len(SERIAL_STYLES)]
+        _calls[0] += 1
     wrap = rnd.randint(2, 9)
     n = 0
     for l in lines:
@@ -116,6 +120,12 @@ def edits(rnd, lines):
         e = pdbgen.insert_at_random(rnd, e, pdbgen.water(rnd, lines, resname=rnd.choice(["HOH", "HOH", "SO4", "PEG", "H2O"])))
     out.append(("ignorable residues", e))
     out.append(("column noise", noise_columns(rnd, lines)))
+    if not _his_done[0] and any(pdbgen.is_atom(l) and l[17:20] == "HIS" for l in lines):
+        # the first structure with a ring that the set-up searches (histidine) gets every style of serial numbers, whichever
+        # style the rotation above has reached: a search that follows serial numbers must meet equal and repeating ones
+        _his_done[0] = True
+        for st in ("zero", "wrap", "negative"):
+            out.append(("column noise", noise_columns(rnd, lines, st)))
     out.append(("input hydrogens", add_hydrogens_inside(rnd, lines)))
     return out
 
@@ -170,6 +180,7 @@ def d21_only(a, b):
 def run(ctx):
     rnd = ctx.rng
     _calls[0] = 0
+    _his_done[0] = False
     from propka.parameters import Parameters
     from propka.input import read_parameter_file
     ignore = read_parameter_file("propka.cfg", Parameters()).ignore_residues
